@@ -275,8 +275,75 @@ def c_worker(args):
     return hutil.export(chk)
 
 
+_prim = None
+
+
+def prim_module():
+    """the size/sign -> primitive-index macros of _cffi_include.h (API mode takes an enum's size and sign from the compiler
+    and encodes them with _cffi_prim_int), wrapped in two functions so that size and sign can be symbolic"""
+    global _prim
+    if _prim is None:
+        sd = common.scratch_dir()
+        src = os.path.join(sd, '_verif_c10.c')
+        open(src, 'w').write('#include "_cffi_include.h"\n'
+                             'int verif_prim_int(long size, int sign) { return _cffi_prim_int(size, sign); }\n'
+                             'int verif_prim_float(long size) { return _cffi_prim_float(size); }\n')
+        _prim = irgen.compile_ir(src, '_verif_c10', extra_flags=['-I' + os.path.join(common.REPO, 'src/cffi')])
+    return _prim
+
+
+def api_worker(args):
+    prop, tier, kind = args
+    chk = hutil.sub_check(prop, tier)
+    mod = prim_module()
+    sys.path.insert(0, os.path.join(common.REPO, 'src'))
+    from cffi import cffi_opcode
+    names = dict((v, k) for k, v in cffi_opcode.PRIMITIVE_TO_INDEX.items())
+    ex = llsym.Executor(mod, dict(llsym.LIBC), loop_bound=8)
+    label = 'api-mode:_cffi_prim_int'
+
+    def h(ex):
+        size = z3.BitVec('size', 64)
+        sign = z3.BitVec('sign', 32)
+        r = simp(ex.call('verif_prim_int', [size, sign]))
+        r = ex.concretize(r, 32, 64, 'index') if not is_c(r) else r
+        rs = llsym.signed(r, 32)
+        inputs = {'size': size, 'sign': sign}
+        hutil.witness(chk, ex, label + ':%s' % names.get(rs, rs))
+        if rs == cffi_opcode._UNKNOWN_PRIM:
+            hutil.discharge(chk, ex, label + ':unknown=>size-not-1-2-4-8', z3.And(size != 1, size != 2, size != 4, size != 8), inputs)
+        else:
+            nm = names.get(rs, '')
+            import re
+            m = re.match(r'^(u?)int(8|16|32|64)_t$', nm)
+            hutil.discharge(chk, ex, label + ':index-names-a-fixed-width-integer-type', m is not None, inputs)
+            if m:
+                hutil.discharge(chk, ex, label + ':%s<=>size-%d-and-%ssigned' % (nm, int(m.group(2)) // 8, 'un' if m.group(1) else ''),
+                                z3.And(size == int(m.group(2)) // 8, (sign != 0) == (m.group(1) == '')), inputs)
+
+    res = ex.explore(h, max_paths=200)
+    hutil.finish_explore(chk, ex, res, label)
+    ex2 = llsym.Executor(mod, dict(llsym.LIBC), loop_bound=8)
+    label2 = 'api-mode:_cffi_prim_float'
+
+    def h2(ex):
+        size = z3.BitVec('size', 64)
+        r = simp(ex.call('verif_prim_float', [size]))
+        r = ex.concretize(r, 32, 64, 'index') if not is_c(r) else r
+        rs = llsym.signed(r, 32)
+        inputs = {'size': size}
+        hutil.witness(chk, ex, label2 + ':%s' % names.get(rs, rs))
+        want = {cffi_opcode.PRIM_FLOAT: size == 4, cffi_opcode.PRIM_DOUBLE: size == 8, cffi_opcode._UNKNOWN_LONG_DOUBLE: size == 16,
+                cffi_opcode._UNKNOWN_FLOAT_PRIM: z3.And(size != 4, size != 8, size != 16)}
+        hutil.discharge(chk, ex, label2 + ':index<=>size', want.get(rs, z3.BoolVal(False)), inputs)
+    res = ex2.explore(h2, max_paths=200)
+    hutil.finish_explore(chk, ex2, res, label2)
+    chk.functions = irgen.func_info(mod, ['verif_prim_int', 'verif_prim_float'])
+    return hutil.export(chk)
+
+
 def dispatch(args):
-    return {'base': base_worker, 'values': values_worker, 'c': c_worker}[args[2]](args)
+    return {'base': base_worker, 'values': values_worker, 'c': c_worker, 'api': api_worker}[args[2]](args)
 
 
 def run(chk):
@@ -288,14 +355,17 @@ def run(chk):
         for pat in itertools.product([0, 1], repeat=n):
             cases.append(P + ('values', pat))
     cases += [P + ('c', n) for n in range(1, 4 if quick else 5)]
+    cases.append(P + ('api',))
     chk.bounds = {'underlying type': 'enums of 1..%d enumerators with arbitrary integer values' % (2 if quick else 3),
                   'values': 'every explicit/implicit pattern of <= %d enumerators, explicit values arbitrary' % NE,
                   'ffi.string': 'enums of <= %d enumerators with arbitrary (possibly duplicate) int values, any stored value' % (3 if quick else 4)}
-    chk.outside = ['API-mode enums whose size/sign come from the C compiler (_enum_ctx; integer check is C12)',
+    chk.bounds['API mode'] = '_cffi_prim_int(size, sign) / _cffi_prim_float(size) for every 64-bit size and every sign'
+    chk.outside = ['that the C compiler evaluates sizeof(enum) and ((enum)-1) <= 0 as it lays the enum out (the compiler); enumerator values in API mode are C12\'s constants',
                    'explicit values given by expressions (C09)', 'enums declared with "..."']
     chk.assume('GCC chooses unsigned int, int, unsigned long, long in that order by sign and range')
     chk.assume('dict semantics: abstract association list keyed by int value / object identity')
     chk.functions = [{'name': 'EnumType.build_baseinttype', 'file': 'src/cffi/model.py'},
                      {'name': 'Parser._build_enum_type', 'file': 'src/cffi/cparser.py'}]
     irgen.backend()
+    prim_module()
     hutil.run_cases(chk, cases, dispatch)
